@@ -1,6 +1,7 @@
 package main
 
 import (
+	"encoding/json"
 	"flag"
 	"fmt"
 	"os"
@@ -17,6 +18,19 @@ func main() {
 		cmdVerify(os.Args[2:])
 	case "check":
 		cmdCheck(os.Args[2:])
+	case "surface":
+		e, err := NewEngine(envOr("VERIF_REPO", "/repo"), "/verif/assumed", []string{"./..."})
+		if err != nil {
+			fmt.Fprintln(os.Stderr, err)
+			os.Exit(2)
+		}
+		n, v, sites := e.surfaceCheck("/verif/spec/rpc_surface.json")
+		out, _ := json.MarshalIndent(sites, "", " ")
+		fmt.Println(string(out))
+		fmt.Println(n, "sites;", len(v), "violations")
+		for _, x := range v {
+			fmt.Println(" -", x)
+		}
 	default:
 		fmt.Fprintln(os.Stderr, "unknown command", os.Args[1])
 		os.Exit(2)
